@@ -836,16 +836,16 @@ package bchutil
 //@   assert after createChecksum#1: forall j :: 0 <= j && j < 8 ==> $ret[j] == cashaddr.dg(cashaddr.cksum(prefix, len(prefix), $p, len($p)), j)
 //@   bind after cat#1: $q = $ret
 //@   assert after cat#1 as C1: len($q) == len($p) + 8 && len($p) >= 0 && (forall k :: 0 <= k && k < len($p) ==> $q[k] == $p[k])
-//@   assert after cat#1: forall j :: 0 <= j && j < 8 ==> $q[len($p) + j] == cashaddr.dg(cashaddr.cksum(prefix, len(prefix), $p, len($p)), j)
+//@   assert after cat#1 as K1: forall j :: 0 <= j && j < 8 ==> $q[len($p) + j] == cashaddr.dg(cashaddr.cksum(prefix, len(prefix), $p, len($p)), j)
 //@   assert after cat#1 from C1 expand cashaddr.at: forall k :: 0 <= k && k < len(prefix) + 1 + len($p) ==> cashaddr.at(prefix, len(prefix), $q, k) == cashaddr.at(prefix, len(prefix), $p, k)
 //@   assert after cat#1: lemma foldc_ext(1, prefix, len(prefix), $q, len(prefix) + 1 + len($p), $p, len(prefix) + 1 + len($p))
-//@   assert after cat#1: cashaddr.foldc(1, prefix, len(prefix), $q, len(prefix) + 1 + len($p)) == cashaddr.foldc(1, prefix, len(prefix), $p, len(prefix) + 1 + len($p))
+//@   assert after cat#1 as F1: cashaddr.foldc(1, prefix, len(prefix), $q, len(prefix) + 1 + len($p)) == cashaddr.foldc(1, prefix, len(prefix), $p, len(prefix) + 1 + len($p))
 //@   assert after cat#1: lemma foldc_unfold8(1, prefix, len(prefix), $q, len(prefix) + 1 + len($p))
 //@   assert after cat#1: lemma cashaddr_selfcheck(cashaddr.foldc(1, prefix, len(prefix), $p, len(prefix) + 1 + len($p)))
 //@   assert after cat#1: forall j :: 0 <= j && j < 8 ==> cashaddr.at(prefix, len(prefix), $q, len(prefix) + 1 + len($p) + j) == cashaddr.dg(cashaddr.z8(cashaddr.foldc(1, prefix, len(prefix), $p, len(prefix) + 1 + len($p))) ^ 1, j)
-//@   assert after cat#1: cashaddr.foldc(1, prefix, len(prefix), $q, len(prefix) + 1 + len($p) + 8) == 1
-//@   assert after cat#1: cashaddr.pm(prefix, len(prefix), $q, len($q)) == 0
-//@   assert after cat#1: cashaddr.cksum(prefix, len(prefix), $q, len($q) - 8) == cashaddr.cksum(prefix, len(prefix), $p, len($p))
+//@   assert after cat#1 as G1: cashaddr.foldc(1, prefix, len(prefix), $q, len(prefix) + 1 + len($p) + 8) == 1
+//@   assert after cat#1 from G1, C1: cashaddr.pm(prefix, len(prefix), $q, len($q)) == 0
+//@   assert after cat#1 as K2 from F1, C1: cashaddr.cksum(prefix, len(prefix), $q, len($q) - 8) == cashaddr.cksum(prefix, len(prefix), $p, len($p))
 //@   assert after verifyChecksum#1: len($arg1) >= 8 && (forall j :: 0 <= j && j < 8 ==> $arg1[len($arg1) - 8 + j] == cashaddr.dg(cashaddr.cksum(prefix, len(prefix), $arg1, len($arg1) - 8), j))
 //@   assert after verifyChecksum#1: $ret
 
